@@ -119,6 +119,7 @@ package impl
 //@   ensures [validated-args] all(RequestValidator.Validate*, $1 == chid && $2 == chid.Initiator && $4 == incoming.BaseCid())
 //@   ensures [unregistered] calls(Registry.Processor) >= 1 && !ret(Registry.Processor, 1) ==> err != nil && !result0.Accepted && untouched
 //@   ensures [malformed] calls(Registry.Processor) == 0 ==> err != nil && !result0.Accepted && untouched
+//@   ensures [no-selector-refused] {C04} incoming.Selector().1 != nil ==> err != nil && !result0.Accepted && untouched -- a request that does not carry a selector is refused before anything else happens
 //@   ensures [not-accepted] calls(RequestValidator.Validate*) == 1 && (ret(RequestValidator.Validate*, 1) != nil || !ret(RequestValidator.Validate*, 0).Accepted) ==>
 //@       last(RequestValidator.Validate*) && err == ret(RequestValidator.Validate*, 1) && result0 == ret(RequestValidator.Validate*, 0)
 //@   ensures [result-is-validators] calls(RequestValidator.Validate*) == 1 && err == nil ==> result0 == ret(RequestValidator.Validate*, 0)
